@@ -208,7 +208,14 @@ def sigma(n, body_fn, lo=0):
 def _atom(c, core, zn, zlo, depth, k):
     core_s = z3.simplify(core)
     guard = [k >= zlo, k < zn]
+    structural = getattr(c, "sigma_merge", None) == "structural"     # opt-in: no solver calls while merging sums (the
+    # obligation-time pointwise congruence check then identifies equal sums with one query)
     for a in c.sigma_atoms:
+        if structural:
+            if a.depth == depth and a.extent.eq(zn) and a.lo.eq(zlo) and a.core.eq(core_s) \
+                    and a.bound == tuple(x.get_id() for x in c.bound_stack):
+                return a.sym
+            continue
         if a.depth != depth:
             continue
         if not (a.extent.eq(zn) or _prove_eq(c, a.extent, zn, [], timeout=1000)):
